@@ -8,7 +8,8 @@ GEN_MODULES = ["Consts", "Sites", "Time"]
 FLOW_FILES = ['nsync_semaphore_futex.c', 'sem_wait.c', 'wait.c', 'cv.c', 'mu_wait.c']
 TRUSTED_BASE = ["the kernel futex contract is modelled in SemModel (timespec validation as Linux timespec64_valid); the real-kernel "
                 "behaviour is exercised by the child-process grid on the real library"]
-PARTIAL = ["C15_expired_prompt/C15_no_crash/C15_no_early_timeout are proved for the semaphore layer every timed entry point bottoms out in; the "
+PARTIAL = ["UNNORMALIZED deadlines (tv_nsec >= 10^9, e.g. nsync_time_add (now, nsync_time_s_ns (0, 1999999999)): nsync_time_add carries once) are outside the theorems (C12 / C15 assume `normalized`) and outside the grid: the futex build then dies with EINVAL -> ASSERT; the public header puts no bound on nsync_time_s_ns's `ns` -- recorded in DESIGN 9.5 (fifth review) as a documentation gap, not raised.  Platforms: the grid runs the C build, the C++ build with the futex semaphore and the PURE C++11 build (std::mutex / condition_variable semaphore, C++ per-thread waiter); the posix-mutex, sem_t, win32 and macOS semaphores are not built here; the theorems (SemModel) are about the futex semaphore only",
+           "C15_expired_prompt/C15_no_crash/C15_no_early_timeout are proved for the semaphore layer every timed entry point bottoms out in; the "
            "plumbing above it: nsync_sem_wait_with_cancel_ is modelled step by step (Model/SemWaitModel.v, Properties_C05sw): C05sw_deadline_enabled / "
            "C05sw_plain_deadline_enabled (for ANY deadline value, before the epoch included, the time-out step is enabled as soon as the clock has reached it), "
            "C15sw_no_deadline (with no deadline and no note the wait never times out and returns only 0), C05sw_results (no other result exists); that an expired "
